@@ -180,7 +180,16 @@ impl<T: Sync + Send + 'static> Worker<T> {
         }
     }
 
-    pub(crate) unsafe fn run(&mut self, pattern_status: pattern::Status, cleared: bool) {
+    /// The flag and callback used to tell the user that a run has finished. The
+    /// caller of [`run`](Worker::run) looks at them after it has released the
+    /// worker lock.
+    pub(crate) fn notifier(&self) -> (Arc<AtomicBool>, Arc<dyn Fn() + Sync + Send>) {
+        (self.should_notify.clone(), self.notify.clone())
+    }
+
+    /// Returns whether the run finished (was not canceled), in that case the
+    /// caller must notify the user (if requested) once the lock is released.
+    pub(crate) unsafe fn run(&mut self, pattern_status: pattern::Status, cleared: bool) -> bool {
         self.running = true;
         self.was_canceled = false;
         #[cfg(nucleo_verif)]
@@ -205,9 +214,6 @@ impl<T: Sync + Send + 'static> Worker<T> {
         if self.pattern.is_empty() {
             self.reset_matches();
             self.process_new_items_trivial();
-            if self.should_notify.load(atomic::Ordering::Relaxed) {
-                (self.notify)();
-            }
             #[cfg(nucleo_verif)]
             crate::verif::hit(
                 "run.end",
@@ -219,7 +225,7 @@ impl<T: Sync + Send + 'static> Worker<T> {
                     self.matches.len() as u64,
                 ],
             );
-            return;
+            return true;
         }
 
         if pattern_status == pattern::Status::Rescore {
@@ -316,9 +322,6 @@ impl<T: Sync + Send + 'static> Worker<T> {
         } else {
             self.matches
                 .truncate(self.matches.len() - take(unmatched.get_mut()) as usize);
-            if self.should_notify.load(atomic::Ordering::Relaxed) {
-                (self.notify)();
-            }
         }
         #[cfg(nucleo_verif)]
         crate::verif::hit(
@@ -331,6 +334,7 @@ impl<T: Sync + Send + 'static> Worker<T> {
                 self.matches.len() as u64,
             ],
         );
+        !self.was_canceled
     }
 
     fn reset_matches(&mut self) {
